@@ -1795,6 +1795,29 @@ fn c06(thorough: bool, rng: &mut Rng, out: &mut Out) {
                     break;
                 }
             }
+            // the printed picture (`Display`) is one more view of the same pixels: border, one character per pixel
+            // row by row, and nothing else — compared with the shadow here and with the model's rendering by the diff
+            if !big {
+                line.push_str(" d");
+                out.stat("op.display");
+                let mut want = format!("+{}+\n", "-".repeat(w as usize));
+                for yy in 0..h {
+                    want.push('|');
+                    for xx in 0..w {
+                        want.push(if shadow[xx as usize][yy as usize] { '@' } else { ' ' });
+                    }
+                    want.push_str("|\n");
+                }
+                want.push_str(&format!("+{}+", "-".repeat(w as usize)));
+                match std::panic::catch_unwind(std::panic::AssertUnwindSafe(|| format!("{}", page))) {
+                    Ok(got) => {
+                        if got != want {
+                            problems.push("the printed picture (Display) differs from the shadow".into());
+                        }
+                    }
+                    Err(_) => problems.push("printing the page panicked".into()),
+                }
+            }
             line.push_str(" i");
             let i = out.case(line, true);
             if let Some(p) = problems.first() {
